@@ -235,10 +235,8 @@ def run(rep, tier, seed, wd):
         vs = R.val_src(v)
         ps = R.pat_src(p, True)
         decl = ("%s = %s" if p["k"] == "ann" else "%s := %s") % (ps, vs)
-        top_dflt = p["k"] == "seq" and not p["delim"] and any(x["k"] == "dflt" for x in p["items"])
-        if not top_dflt:       # `a, (b = 1) := v` is judged by the MC replay (context decl); keep trace keys apart
-            items.append({"steps": [{"src": decl, "obs": names}], "group": 0})
-            meta.append(("decl", p, v, names))
+        items.append({"steps": [{"src": decl, "obs": names}], "group": 0})
+        meta.append(("decl", p, v, names))
         items.append({"steps": [{"src": "switch (%s) case %s -> \"arm\" case _ -> \"nomatch\"" % (vs, ps)}], "group": 0})
         meta.append(("switch", p, v, names))
         if not R.has_kind(p, ("lit",)):
